@@ -34,6 +34,9 @@ EvalS(sv, w, ins) ==
     [] sv.s = "comb"  -> LET r == EvalS(sv.a, w, ins) IN
                          IF r.sig = "normal" THEN EvalS(sv.b, r.w, r.ins) ELSE r
     [] sv.s = "for"   -> LoopS(sv, TRUE, w, ins)
+    \* ForPost's iteration: the body, then (unless it left by break / return) the yielding post statement
+    [] sv.s = "fpbody" -> LET r == EvalS(sv.body, w, ins) IN
+                          IF r.sig \in {"normal", "continue"} THEN EvalS(sv.post, r.w, r.ins) ELSE r
     \* Breakable: a break leaves the body and execution goes on after it; everything else passes
     [] sv.s = "brk"   -> LET r == EvalS(sv.body, w, ins) IN
                          IF r.sig = "break" THEN R("normal", Zero, r.w, r.ins) ELSE r
